@@ -161,6 +161,19 @@ def _run_uniq_u(desc):
             if np.abs(o.ubisread[k] - results[0]).max() > 1e-9 or np.abs(o.grains[(k, "s")].ubi - results[0]).max() > 1e-9:
                 sh.violation("%s:refinegrains.makeuniq-not-canonical" % name, dict(case0, element=k), {})
                 break
+        # history: grains refined after they were generated differ (slightly) from the matrices read from file; makeuniq must reduce
+        # each grain's OWN matrix
+        o = refinegrains.refinegrains()
+        small = O.rotation_from_axis_angle((2, -1, 3), 0.05)
+        o.ubisread = {0: orbit[0].copy()}
+        refined = {(0, "s1"): np.dot(orbit[0], small.T) * 1.001, (0, "s2"): np.dot(orbit[-1], small) * 0.999}
+        o.grains = {k: grain.grain(v.copy()) for k, v in refined.items()}
+        o.makeuniq(name)
+        for k, v in refined.items():
+            want_u = sym_u.find_uniq_u(v, grp)
+            if np.abs(o.grains[k].ubi - want_u).max() > 1e-12:
+                sh.violation("%s:refinegrains.makeuniq-does-not-reduce-the-grain's-own-matrix" % name, dict(case0, scan=k[1]), {"got": o.grains[k].ubi, "expected": want_u})
+                break
         sh.outcomes.add((name, round(float(traces[0]), 3)))
     sh.sample({"group": name, "ubi": ubi, "elements_applied": len(ops)}, limit=1)
     return sh
@@ -186,6 +199,17 @@ def _run_uniq_hkl(desc):
         sh.evaluations += hkls.shape[1]
         if k:
             sh.nontrivial += hkls.shape[1]
+    # every list length (incl. the square 3 x 3 case): each column reduces as it does alone
+    single = {tuple(hkls[:, j]): tuple(ref[:, j]) for j in range(hkls.shape[1])}
+    for nlen in (1, 2, 3, 4, 5, 8):
+        for start in range(0, hkls.shape[1] - nlen, 17):
+            sub = hkls[:, start:start + nlen].copy()
+            r = sym_u.find_uniq_hkls(sub, grp)
+            if r.shape != sub.shape or any(tuple(r[:, j]) != single[tuple(sub[:, j])] for j in range(nlen)):
+                sh.violation("%s:find_uniq_hkls-depends-on-list-length" % name, {"kind": "uniq_hkl", "group": name, "length": nlen, "start": start},
+                             {"got": r, "expected": [single[tuple(sub[:, j])] for j in range(nlen)]})
+                break
+            sh.evaluations += nlen
     # representative lies in the orbit and reduction is idempotent
     orbit = np.array([np.dot(o, hkls) for o in ops])            # nops x 3 x n
     inorb = (np.abs(orbit - ref[None]).max(axis=1) < 1e-9).any(axis=0)
